@@ -368,11 +368,15 @@ def audit_graph(expr, check_pickle=True, check_conflicts=True):
         return (isinstance(o, tuple) and len(o) >= 2 and isinstance(o[0], str) and o[0] in scope_names
                 and all(isinstance(v, (int, np.integer, str)) for v in o[1:]))
 
-    def walk_scoped(t):
+    def walk_scoped(t, defined=()):
         st = [t]
+        first = True
         while st:
             x = st.pop()
             yield x
+            if not first and isinstance(x, tuple) and ishashable_(x) and x in defined:
+                continue  # a defined key is ONE reference (dask tests a non-task tuple as a whole); its components are not references
+            first = False
             if isinstance(x, tuple) and len(x) >= 3 and x[0] is Fused._execute_task:
                 st.extend(x[3:])
                 continue
@@ -381,10 +385,17 @@ def audit_graph(expr, check_pickle=True, check_conflicts=True):
             elif isinstance(x, dict):
                 st.extend(x.values())
 
+    def ishashable_(x):
+        try:
+            hash(x)
+            return True
+        except TypeError:
+            return False
+
     def check_scope(graph, where):
         scope_names = knames | {k[0] if isinstance(k, tuple) else k for k in graph}
         for k, t in graph.items():
-            for o in walk_scoped(t):
+            for o in walk_scoped(t, graph):
                 if isinstance(o, (_core.Expr, FrameBase)):
                     problems.append({"symptom": "planner-object-in-task", "key": repr(k)[:100], "obj": type(o).__name__, "where": where})
                 if looks_like_key(o, scope_names):
@@ -409,7 +420,7 @@ def audit_graph(expr, check_pickle=True, check_conflicts=True):
         except Exception as ex:
             problems.append({"symptom": "cycle", "where": "fused-inner", "detail": repr(ex)[:100]})
         for k, t in inner.items():
-            for o in walk_scoped(t):
+            for o in walk_scoped(t, set(inner) | injected | set(g)):
                 if isinstance(o, (_core.Expr, FrameBase)):
                     problems.append({"symptom": "planner-object-in-task", "key": repr(k)[:100], "obj": type(o).__name__, "where": "fused-inner"})
                 if looks_like_key(o, scope_names):
@@ -453,8 +464,29 @@ def audit_graph(expr, check_pickle=True, check_conflicts=True):
     return problems, stats
 
 
+_UUID_KEY = None
+
+
+def _mask_uuid(t, depth=0):
+    """DiskShuffle draws a fresh uuid for its private zpartd-/barrier-/shuffle-partition- keys on every materialisation."""
+    global _UUID_KEY
+    import re
+
+    if _UUID_KEY is None:
+        _UUID_KEY = re.compile(r"^(zpartd|barrier|shuffle-partition)-[0-9a-f]{32}$")
+    if depth > 8:
+        return t
+    if isinstance(t, str):
+        return _UUID_KEY.sub(r"\1-<uuid>", t)
+    if isinstance(t, tuple):
+        return tuple(_mask_uuid(x, depth + 1) for x in t)
+    if isinstance(t, list):
+        return [_mask_uuid(x, depth + 1) for x in t]
+    return t
+
+
 def _task_sig(t):
-    return sig(t)
+    return sig(_mask_uuid(t))
 
 
 # ---------------------------------------------------------------------------------------------
